@@ -7,6 +7,7 @@ pub mod driver;
 pub mod frame;
 pub mod fsutil;
 pub mod kernel;
+pub mod lin;
 pub mod rng;
 pub mod worlds;
 
